@@ -460,7 +460,9 @@ class DAE:
         Reset array sizes to zero and clear all arrays.
         """
 
-        self.set_t(0.0)
+        # `t < 0` denotes the pre-simulation (power flow) stage, as set by the constructor;
+        # models such as PQ switch equations on the sign of `dae.t`
+        self.set_t(-1.0)
         self.m = 0
         self.n = 0
         self.o = 0
